@@ -41,6 +41,8 @@ KF = {
 
 KF_A = ("F7-A", "a user function invoked through a user alias never returns to the caller: the function's return jumps to line 1 of "
                 "the script (typically an endless loop)", "fn f / return true / end / alias g f / r = g")
+KEYWORDS = ["then", "do", "end", "else", "elseif", "if", "in", "not", "and", "or", "while", "for", "fn", "return", "true", "false",
+            "begin", "done", "fi", "{", "}", ";", "--", "-c", "capture", "cap9"]
 PREDS2 = ["equals", "contains", "starts_with", "user function (ends_with)"]
 PREDS1 = ["is_empty", "user function (is_empty)"]
 PRED_POS = ["direct", "if", "elseif", "while", "not", "alias"]
@@ -176,6 +178,9 @@ def run(ck):
               ["50%"], ["a%b"], ["${a b}"], ["%{x y"], ["x", "=y"], ["a\t", "b"], ["= x"], ["a\"b"], ["#", " "], [" # "],
               ["é\u00a0", "😀 \u2003"], ["true"], ["false"], ["(", "a", ")"], ["and", "or"], ["a=b", "c"], ["-x", "--y=1"],
               ["C:\\dir\\file.txt", "D:\\a b\\c"], ["{\"k\": 1}x"], ["a", "b", "c", "d", "e", "f", "g", "h"]]
+    # values that look like syntax of the wrappers (seed C09-w5-m1: a trailing `then` / `do` dropped as an optional keyword)
+    for kw in KEYWORDS:
+        corpus += [[kw], ["key", kw], [kw, "key"], ["a", kw, "b"], ["key", kw.upper()], ["k v", kw]]
     for a in corpus:
         cases.append(({"x": "X", "a": "${x}"}, a, "corpus"))
     n0 = len(cases)
@@ -206,7 +211,7 @@ def run(ck):
     # ---- random, longer ------------------------------------------------------------------------------------
     for _ in range(150000 if thorough else 25000):
         bias = rng.random() < 0.75
-        args = [rand_value(rng, bias) for _a in range(rng.randint(1, 5))]
+        args = [rand_value(rng, bias) if rng.random() < 0.93 else rng.choice(KEYWORDS) for _a in range(rng.randint(1, 5))]
         extra = {} if rng.random() < 0.5 else {"x": rand_value(rng, False), "a": "${x}", "": "q"}
         cases.append((extra, args, "random-safe-biased" if bias else "random-hostile"))
 
@@ -235,6 +240,10 @@ def run(ck):
             if cls in ("?", "INCONSISTENT"):
                 ck.broken.append("model driver: unexpected output on %r" % (args,))
                 continue
+            if r[0] in ("HANG",) or r[0].startswith("DIED"):
+                # the process did not answer on this case (e.g. class E under `while`: `capture = set x` assigns a truthy value
+                # for ever): a difference like any other - tolerated in an open unsafe class, a violation in the domain
+                r = [exp] + [r[0]] * 6
             if len(r) != 7 or r[0] != exp:
                 harness_bad.append(k)
                 continue
@@ -391,8 +400,72 @@ def run(ck):
                                              "alias base9 capture %s" % a[2], "derived9 " + " ".join(a[3:])],
                                   "expected (direct call `base9 %s ..`)" % a[1]: want, "received (direct, through the alias chain)": got,
                                   "theorems": ["C09_roundtrip"], "seed": ck.seed, "wire": "AH\t-\t%s" % enc_list(a)})
+        # call HISTORY: the wrapped call comes after other lines of the SAME run (one context, one state): earlier wrapped calls
+        # whose argument values join to the same text with other boundaries (seed C05-w5-m2: parsed condition lines cached under
+        # the joined values), the same written call with other values, and many failing evaluations (seed C09-w5-m2: a nesting
+        # counter leaked by every "command not found" inside an evaluation).  In-domain argument values only; expected = the
+        # values, in all six positions, whatever ran before.
+        hw = ["a", "b", "cc", "x.y", "k=v", "-f", "é", "2", "then", "do", "true", "0"]
+        ch = []
+        for _ in range(2500 if thorough else 400):
+            words = [rng.choice(hw) for _ in range(rng.randint(2, 5))]
+
+            def split(ws):
+                out, cur = [], [ws[0]]
+                for w in ws[1:]:
+                    if rng.random() < 0.5:
+                        cur.append(w)
+                    else:
+                        out.append(" ".join(cur))
+                        cur = [w]
+                return out + [" ".join(cur)]
+            args = split(words)
+            extra, lines = {}, []
+            kind = rng.choice(["join", "join", "fail", "fail", "same", "mixed"])
+            if kind in ("join", "mixed"):
+                for j in range(rng.randint(1, 3)):
+                    other = split(words)
+                    refs = []
+                    for o in other:
+                        nm = "p%d" % len(extra)
+                        extra[nm] = o
+                        refs.append("${%s}" % nm)
+                    w = rng.choice(["if capture %s\nend", "q9 = not capture %s", "while capture %s\nend", "alias pre9 capture\npre9 %s",
+                                    "q9 = eval capture %s", "capture %s"])
+                    lines.append(w % " ".join(refs))
+            if kind in ("fail", "mixed"):
+                n_fail = rng.choice([1, 3, 15, 16, 17, 29, 30, 31, 32, 33, 40, 64, 70, 130])
+                for j in range(n_fail):
+                    lines.append(rng.choice(["q9 = not ghost9", "q9 = eval ghost9 x", "q9 = not ghost9 ${v0}", "alias dang9 ghost9\nq9 = dang9"]))
+            if kind == "same":
+                for j in range(rng.randint(1, 2)):
+                    lines.append("sv9 = set ${v0}\nv0 = set %s\n%s\nv0 = set ${sv9}" % (
+                        rng.choice(["other", "\"o t\"", "z"]),
+                        rng.choice(["if capture%s\nend", "q9 = not capture%s", "while capture%s\nend"]) % "".join(" ${v%d}" % i for i in range(len(args)))))
+            ch.append((extra, args, "\n".join(lines) + "\n", kind))
+        chm = [o.split("\t") for o in ck.model([model_line(e, a) for (e, a, _p, _k) in ch])]
+        cho = ck.impl(["CH\t%s\t%s\t%s" % (enc_env(e), enc_list(a), enc_str(pfx)) for (e, a, pfx, _k) in ch])
+        ch_dom = 0
+        ch_kinds = {}
+        for (extra, args, pfx, kind), f, o in zip(ch, chm, cho):
+            if len(f) != 5 or f[0] != "T":
+                continue
+            ch_dom += 1
+            ch_kinds[kind] = ch_kinds.get(kind, 0) + 1
+            want = expected(args)
+            got = o.split(" ")
+            if got != [want] * 6:
+                found = True
+                if len(ck.violations) < 5:
+                    ck.violation({"kind": "call history: after earlier lines of the same run, a wrapped call does not pass the argument values "
+                                          "of the direct call (in-domain values)",
+                                  "earlier_lines": pfx.split("\n"), "arguments": args, "extra_variables": extra,
+                                  "expected_in_every_position": want, "received": dict(zip(POSITIONS[:6], got)),
+                                  "theorems": ["C09_roundtrip"], "seed": ck.seed,
+                                  "wire": "CH\t%s\t%s\t%s" % (enc_env(extra), enc_list(args), enc_str(pfx))})
         ck.coverage.update({
-            "evaluations": len(cases) * 7 + len(pcases) * 20 + len(ah) * 2,
+            "call_history_cases": {"cases": len(ch), "in_domain": ch_dom, "by_kind": ch_kinds},
+            "evaluations": len(cases) * 7 + len(pcases) * 20 + len(ah) * 2 + ch_dom * 6,
             "cases": len(cases),
             "in_domain_cases": n_dom,
             "in_domain_cases_outside_the_simple_syntactic_classes": n_beyond_simple,
